@@ -8,7 +8,8 @@ open CuqiVerif CuqiVerif.Proto CuqiVerif.C11
   objects  `;`-separated, in address order:  `cls:field=val,field=val`   (cls = class letter)
   values   `n<int>` | `r<addr>` | `R<a.b.c>` | `u<key>` | `f<id>/<free.free>` | `i<a.b>` | `-`
   ops      `;`-separated: `c:<obj>:<kw>` condition, `l:<obj>:<kw>` logd, `g:<obj>` gradient, `s:<obj>` sample,
-           `t:<obj>:<data>` to_likelihood, `a:<model>:<dist>` model(dist), `G:<obj>:<sweeps>` Gibbs conditioning stream
+           `t:<obj>:<data>` to_likelihood, `a:<model>:<dist>` model(dist), `G:<obj>:<sweeps>` Gibbs conditioning stream,
+           `j:<obj>,<obj>,…` JointDistribution(objs)
            `<obj>` = `@k` (address k) or `$k` (object returned by op number k); kw = `k=v&k=v` or `.`
   output   per op `kind:parnames:name:allocs:escapes:fp` joined by `;` then `|` and the end-of-program
            sibling check (`1` iff the fingerprint of every object returned by an op is the one it had when returned).
@@ -17,6 +18,7 @@ open CuqiVerif CuqiVerif.Proto CuqiVerif.C11
 def clsOfLetter : String → Option Cls
   | "d" => some .dist | "n" => some .lognormal | "r" => some .reggauss | "L" => some .lik | "E" => some .eval
   | "J" => some .joint | "P" => some .post | "M" => some .mlp | "A" => some .model | "g" => some .geom | "c" => some .cache
+  | "a" => some .arr
   | _ => none
 
 def fldOfName : String → Option Fld
@@ -25,6 +27,7 @@ def fldOfName : String → Option Fld
   | "distr" => some .distr | "data" => some .data | "value" => some .value | "dens" => some .dens | "lik" => some .lik
   | "prior" => some .prior | "gauss" => some .gauss | "args" => some .args | "mvars" => some .mvars | "vname" => some .vname
   | "cacheG" => some .cacheG | "cmean" => some .cmean | "ccov" => some .ccov | "syncName" => some .syncName
+  | "cval" => some .cval | "arrv" => some .arrv
   | _ => none
 
 def natList (s : String) : Option (List Nat) :=
@@ -97,6 +100,8 @@ def parseOp (results : Array Res) (s : String) : Option POp :=
                     | some a, some k => some (.op (.tolik a k)) | none, some _ => some .skip | _, _ => none)
   | ["a", m, d] => (match resolve results m, resolve results d with
                     | some a, some b => some (.op (.apply a b)) | _, _ => some .skip)
+  | ["j", os] => (match (os.splitOn ",").mapM (resolve results) with
+                  | some as => some (.op (.mkjoint as)) | none => some .skip)
   | ["G", o, n] => (match resolve results o, n.toNat? with
                     | some a, some k => some (.gibbs a k) | none, some _ => some .skip | _, _ => none)
   | _ => none
